@@ -24,7 +24,7 @@ CHECKS = {
   "technique": TECH + "; inductive step from a symbolic invariant state; lock-set check",
  },
  "C18": {
-  "text": "Bounded symbolic model checking: Mixer[int] over the real WrapIntSlice iterators, two inputs of 0..2 (quick) / 0..3 (thorough) unconstrained 64-bit elements, ANY selector (each answer a fresh solver boolean, arguments logged) and every script of 6 / 9 calls over {HasNext, Next, Reset}; z3 shows every (value, ok) equals a two-pointer reference merge consuming the same decisions, the selector is consulted exactly when both heads are present and undecided with exactly the heads as arguments, HasNext is idempotent and agrees with Next, Reset restarts; plus sorted inputs under <= merge sorted.",
+  "text": "Bounded symbolic model checking: Mixer[int] over the real WrapIntSlice iterators, two inputs of 0..2 (quick) / 0..3 (thorough) unconstrained 64-bit elements, ANY selector (each answer a fresh solver boolean, arguments logged) and every script of 6 / 8 calls over {HasNext, Next, Reset}; z3 shows every (value, ok) equals a two-pointer reference merge consuming the same decisions, the selector is consulted exactly when both heads are present and undecided with exactly the heads as arguments, HasNext is idempotent and agrees with Next, Reset restarts; plus sorted inputs under <= merge sorted.",
   "note": "Trusted: gosx translation (self-checked natively), z3. Longer inputs/scripts and other input iterator types are outside the claim.",
   "technique": TECH + "; API-bounded symbolic history against a reference model",
  },
@@ -69,7 +69,7 @@ CHECKS = {
   "technique": TECH + "; bounded symbolic scheduling of goroutines, deadlock detection, lock-set check",
  },
  "C09": {
-  "text": "Bounded symbolic scheduling of the real ECache: T=2 (quick) / 3 (thorough) goroutines x 1 operation (and 2 goroutines x up to 2) over {GetOrCreate, Remove, Clear} on <=2 keys, capacity 1..2, create function that blocks (yield) and may fail; every schedule up to the preemption bound with switches at Lock/Unlock, channel receive/close and inside create. Monitors: at most one creation per key in progress, create never called under the lock, no deadlock, capacity never exceeded, some sequential LRU history (program order respected) explains all returned values and the delete-callback log, every created value deleted exactly once after a final Clear; lock-set check on items/inflight.",
+  "text": "Bounded symbolic scheduling of the real ECache: 2 goroutines x 1 operation (3 preemptions quick / 4 thorough), 2 goroutines x up to 2 operations, and one goroutine x 5 (quick) / 7 (thorough) calls, over {GetOrCreate, Remove, Clear} on <=2 (sequential entry: 4) keys, capacity 1..2 (sequential entry: 1..3), create function that blocks (yield) and may fail; every schedule up to the preemption bound with switches at Lock/Unlock, channel receive/close and inside create. Monitors: at most one creation per key in progress, create never called under the lock, no deadlock, capacity never exceeded, some sequential LRU history (program order respected) explains all returned values and the delete-callback log, every created value deleted exactly once after a final Clear; lock-set check on items/inflight.",
   "note": "Trusted: gosx scheduler and translation. More threads/ops/keys or preemptions outside the claim.",
   "technique": TECH + "; bounded symbolic scheduling of goroutines + lock-set check",
  },
@@ -84,7 +84,7 @@ CHECKS = {
   "technique": TECH + "; bounded symbolic scheduling, deadlock detection, discrete-event time for the lateness lemma",
  },
  "C01": {
-  "text": "Bounded symbolic scheduling of the real lock code (Lock/TryLock/LockWithCtx/Unlock/lockInternal/tryLockInternal/supportTimeout) against a contract storage and a lease-timer contract written in the harness: 2 (quick) / 3 (thorough) lockers x 2 steps over {LockWithCtx, TryLock, LockWithCtx cancelled at any point, (Lock, cancelled-before), Unlock}; distinct Lockers, ONE shared Locker, two providers; storage faults (request lost / reply lost, <= 1 quick / 2 thorough) on every acquire/release-path call with orphan records lapsing at any later point; all schedules up to 1 (quick) / 2 (thorough) preemptions; plus an entry with symbolic clock and symbolic lease period. Monitor: ghost holder count == 1 at every successful acquire.",
+  "text": "Bounded symbolic scheduling of the real lock code (Lock/TryLock/LockWithCtx/Unlock/lockInternal/tryLockInternal/supportTimeout) against a contract storage and a lease-timer contract written in the harness: 2 lockers x 2 steps (one entry: 3 steps x 1 step) over {LockWithCtx, TryLock, LockWithCtx cancelled at any point, (Lock, cancelled-before), Unlock}; distinct Lockers, ONE shared Locker, two providers; storage faults (request lost / reply lost, at most one) on every acquire/release-path call with orphan records lapsing at any later point; all schedules up to 1 (quick) / 2 (thorough) preemptions; plus an entry with symbolic clock and symbolic lease period. Monitor: ghost holder count == 1 at every successful acquire.",
   "note": "Trusted: gosx scheduler/translation; the storage contract stub (what C02/C03/C06/C07 establish), the timer contract stub (what C12/C13 establish); hypothesis of the property as an assumption (the record of a live tenure does not expire); no stall >= TTL/2 between timeout.Call and future.Store. More lockers/steps/preemptions and the real storages are outside the claim.",
   "technique": TECH + "; bounded symbolic scheduling of goroutines with symbolic fault placement",
  },
